@@ -515,6 +515,8 @@ class SemanticPointer(Fixed):
             if infer_types(self, other) == TAnyVocab:
                 self._ensure_algebra_match(other)
             other = other.evaluate().v
+        if np.ndim(other) == 1 and len(other) != len(self.v):
+            raise ValueError("Inputs must have same length.")
         return np.sum((self.v - other) ** 2) / len(self.v)
 
     def _ensure_algebra_match(self, other):
